@@ -45,7 +45,13 @@ func isScipipeFn(fn *ssa.Function) bool {
 }
 
 // packages whose source may be interpreted when no intrinsic exists
-var interpOK = map[string]bool{"errors": true, "sort": true, "slices": true, "cmp": true, "internal/bytealg": false}
+var interpOK = map[string]bool{"errors": true, "sort": true, "slices": true, "cmp": true,
+	"strings": true, "path/filepath": true, "path": true, "strconv": true, "unicode": true, "unicode/utf8": true,
+	"encoding/hex": true, "bytes": true, "math": true, "math/bits": true, "internal/stringslite": true, "internal/bytealg": true,
+	"internal/filepathlite": true, "internal/itoa": true}
+
+// single functions of otherwise modelled packages that are pure and may be interpreted
+var interpOKFunc = map[string]bool{"os.IsPathSeparator": true}
 
 func fnPkgPath(fn *ssa.Function) string {
 	if fn.Pkg != nil {
@@ -150,7 +156,10 @@ func (m *Machine) callFn(fn *ssa.Function, args []Value, env []Value, site ssa.I
 		return m.callVx(fn, args)
 	}
 	if in, ok := intrinsics[name]; ok {
-		return in(m, fn, args)
+		if r, fb := m.tryIntrinsic(in, fn, args); !fb {
+			return r
+		}
+		// the model does not cover these arguments: interpret the library source instead
 	}
 	if !isScipipeFn(fn) {
 		if fn.Name() == "init" {
@@ -160,7 +169,7 @@ func (m *Machine) callFn(fn *ssa.Function, args []Value, env []Value, site ssa.I
 		if r, ok := m.callExternalFallback(fn, args); ok {
 			return r
 		}
-		if !(interpOK[fnPkgPath(fn)] || (fn.Synthetic != "" && fnPkgPath(fn) == "")) || fn.Blocks == nil {
+		if !(interpOK[fnPkgPath(fn)] || interpOKFunc[name] || (fn.Synthetic != "" && fnPkgPath(fn) == "")) || fn.Blocks == nil {
 			m.unsupported("no model for external function %s", name)
 		}
 	}
@@ -183,6 +192,30 @@ func (m *Machine) callFn(fn *ssa.Function, args []Value, env []Value, site ssa.I
 	m.runFrame(fr)
 	g.depth--
 	return fr.result
+}
+
+type intrinsicFallback struct{}
+
+// tryIntrinsic runs a library model; if the model cannot handle the arguments and the
+// library function is pure Go that may be interpreted, it asks for the fallback.
+func (m *Machine) tryIntrinsic(in intrinsic, fn *ssa.Function, args []Value) (res Value, fallback bool) {
+	prev := m.inIntrinsic
+	if fn.Blocks != nil && interpOK[fnPkgPath(fn)] {
+		m.inIntrinsic = fn
+	} else {
+		m.inIntrinsic = nil
+	}
+	defer func() {
+		m.inIntrinsic = prev
+		if r := recover(); r != nil {
+			if _, ok := r.(intrinsicFallback); ok {
+				fallback = true
+				return
+			}
+			panic(r)
+		}
+	}()
+	return in(m, fn, args), false
 }
 
 func (m *Machine) runDefers(fr *frame) {
